@@ -3,8 +3,14 @@ package c12
 import (
 	"context"
 	"fmt"
+	"io"
+	"io/ioutil"
+	"math/rand"
 	"net/http"
 	"sort"
+	"strings"
+
+	"github.com/emersion/go-webdav"
 
 	"github.com/emersion/go-webdav/caldav"
 	"github.com/emersion/go-webdav/carddav"
@@ -22,6 +28,9 @@ type davClient struct {
 	multiget      func(ctx context.Context, coll string, paths []string) ([]string, error)
 	get           func(ctx context.Context, obj string) (string, error)
 	put           func(ctx context.Context, obj string) (string, error)
+	// wd is the generic WebDAV client every caldav / carddav client embeds
+	// (the same object FindCurrentUserPrincipal is a method of).
+	wd *webdav.Client
 }
 
 func newDavClient(server string, hc *http.Client, endpoint string) (*davClient, error) {
@@ -38,6 +47,7 @@ func newDavClient(server string, hc *http.Client, endpoint string) (*davClient, 
 			return out
 		}
 		return &davClient{
+			wd:            cl.Client,
 			findPrincipal: cl.FindCurrentUserPrincipal,
 			findHomeSet:   cl.FindCalendarHomeSet,
 			findColls: func(ctx context.Context, hs string) ([]string, error) {
@@ -90,6 +100,7 @@ func newDavClient(server string, hc *http.Client, endpoint string) (*davClient, 
 		return out
 	}
 	return &davClient{
+		wd:            cl.Client,
 		findPrincipal: cl.FindCurrentUserPrincipal,
 		findHomeSet:   cl.FindAddressBookHomeSet,
 		findColls: func(ctx context.Context, hs string) ([]string, error) {
@@ -186,6 +197,9 @@ func runChain(c *fw.Ctx, cs *Case, r *rig, ip *doubles.InProc, hc *http.Client, 
 		multi = "multi-user,"
 	}
 	var leaks []string
+	// phase / after: set while the same client is being reused after an
+	// unrelated call (reused-client family).
+	phase, after := "", ""
 	wire := func() []string {
 		var l []string
 		leaks = nil
@@ -216,10 +230,14 @@ func runChain(c *fw.Ctx, cs *Case, r *rig, ip *doubles.InProc, hc *http.Client, 
 		w := wire()
 		c.Eval(1)
 		cls := nameClass(about)
-		keyBase := fmt.Sprintf("%s|chain:%s|%sentry=%s,names=%s|", cs.Server, name, multi, entryClass(name, cs.Entry), cls)
+		keyBase := fmt.Sprintf("%s|chain:%s|%s%sentry=%s,names=%s|", cs.Server, name, multi, phase, entryClass(name, cs.Entry), cls)
 		wit := func() map[string]interface{} {
-			return map[string]interface{}{"case": cs, "session": r.session, "user": r.user, "step": name, "endpoint": endpoint, "argument": fmt.Sprintf("%q", about),
+			m := map[string]interface{}{"case": cs, "session": r.session, "user": r.user, "step": name, "endpoint": endpoint, "argument": fmt.Sprintf("%q", about),
 				"want": fmt.Sprintf("%q", want), "got": fmt.Sprintf("%q", got), "err": fw.ErrString(err), "wire": w, "backend_calls": callList(calls)}
+			if after != "" {
+				m["same_client_used_before_for"] = after
+			}
+			return m
 		}
 		ok := true
 		switch {
@@ -252,7 +270,16 @@ func runChain(c *fw.Ctx, cs *Case, r *rig, ip *doubles.InProc, hc *http.Client, 
 		if !ok {
 			res = "deviates"
 		}
+		if phase != "" {
+			c.Observe("reused_client_steps", fmt.Sprintf("%s|%s|after %s|%s", cs.Server, name, strings.SplitN(after, " ", 2)[0], res), 1)
+			c.Distinct(fmt.Sprintf("chain-reused|%s|%s|%s|%s|p%d|%v|%v%v%v|%s", cs.Server, name, cs.Entry, strings.SplitN(after, " ", 2)[0], len(cs.Prefix), cs.PrefixSlash,
+				cs.Layout.PSlash, cs.Layout.HSlash, cs.Layout.CSlash, cls))
+			return
+		}
 		c.Observe("chain_steps", fmt.Sprintf("%s|%s|entry=%s|%s", cs.Server, name, cs.Entry, res), 1)
+		if len(cs.Layout.Shared) > 0 && name == "collections" {
+			c.Observe("chain_collections_outside_home_set", fmt.Sprintf("%s|%s", cs.Server, res), 1)
+		}
 		if r.session != nil {
 			c.Observe("multi_user_chain_steps", fmt.Sprintf("%s|user %s|%s|%s", cs.Server, r.user, name, res), 1)
 		}
@@ -309,6 +336,66 @@ func runChain(c *fw.Ctx, cs *Case, r *rig, ip *doubles.InProc, hc *http.Client, 
 	}
 	r.calls()
 	wire()
+	if cs.ReuseSeed == 0 {
+		return
+	}
+
+	// Reused-client family: the statement's chain is a property of the client
+	// object, not of its first use. The SAME client now serves unrelated calls
+	// to absolute paths (methods of the embedded webdav.Client; their own
+	// results are not judged), and the discovery steps are repeated: they must
+	// still return exactly the backend's paths.
+	obj0 := r.objs[r.colls[0]][0]
+	coll0 := r.colls[0]
+	coll0Other := strings.TrimSuffix(coll0, "/")
+	if coll0Other == coll0 {
+		coll0Other += "/"
+	}
+	foreignPrincipal := joinNames(cs.prefixPath(), cs.Layout.OtherUser)
+	type disturbance struct {
+		name string
+		f    func()
+	}
+	dists := []disturbance{
+		{"Stat (an object)", func() { cl.wd.Stat(ctx, obj0) }},
+		{"Stat (a missing object)", func() { cl.wd.Stat(ctx, newObj) }},
+		{"Stat (a foreign principal path)", func() { cl.wd.Stat(ctx, foreignPrincipal) }},
+		{"ReadDir (a collection)", func() { cl.wd.ReadDir(ctx, coll0, false) }},
+		{"ReadDir (a collection, other trailing-slash spelling)", func() { cl.wd.ReadDir(ctx, coll0Other, false) }},
+		{"ReadDir (the home set, recursive)", func() { cl.wd.ReadDir(ctx, r.hs, true) }},
+		{"Open (an object)", func() {
+			if rc, err := cl.wd.Open(ctx, obj0); err == nil {
+				io.Copy(ioutil.Discard, rc)
+				rc.Close()
+			}
+		}},
+		// the backend double records a deletion and keeps its layout
+		{"RemoveAll (a missing object)", func() { cl.wd.RemoveAll(ctx, newObj) }},
+		{"GetObject (an object)", func() { cl.get(ctx, obj0) }},
+	}
+	rnd := rand.New(rand.NewSource(cs.ReuseSeed))
+	phase = "reused-client,"
+	for n, i := range rnd.Perm(len(dists)) {
+		if n == 4 {
+			break
+		}
+		d := dists[i]
+		panicked, pv, stack := fw.Guard(d.f)
+		r.calls()
+		w := wire()
+		if panicked {
+			c.Report(fmt.Sprintf("%s|chain:reused-client|panic:%s", cs.Server, fw.PanicSite(stack)), fmt.Sprintf("client call %s panicked: %v", d.name, pv),
+				map[string]interface{}{"case": cs, "session": r.session, "call": d.name, "wire": w})
+			return
+		}
+		after = d.name
+		step("principal", r.principal, []string{r.principal}, "CUP", "", one(func() (string, error) { return cl.findPrincipal(ctx) }))
+		if n == 3 {
+			step("home-set", r.principal, []string{r.hs}, "HSP", "", one(func() (string, error) { return cl.findHomeSet(ctx, r.principal) }))
+			step("collections", r.hs, r.colls, "ListColl", "", func() ([]string, error) { return cl.findColls(ctx, r.hs) })
+			step("get", obj0, []string{obj0}, "GetObj", obj0, one(func() (string, error) { return cl.get(ctx, obj0) }))
+		}
+	}
 }
 
 // entryClass: only the first step depends on where the client starts.
